@@ -429,6 +429,7 @@ func buildEncodeParams(op *spec.Op) *jpeg2000.EncodeParams {
 	p.UsePCRDOpt = c.PCRD
 	p.AppendLosslessLayer = c.AppendLL
 	p.TileWidth, p.TileHeight = c.TileW, c.TileH
+	p.PrecinctWidth, p.PrecinctHeight = c.PrecW, c.PrecH
 	if c.HT {
 		p.HTJ2KMode = true
 		p.BlockEncoderFactory = func(w, h int) jpeg2000.BlockEncoder { return htj2k.NewHTEncoder(w, h) }
